@@ -469,8 +469,9 @@ fn mk_viol(class: &str, sig: String, msg: String) -> Viol {
     Viol { class: class.to_string(), sig, msg, step: 0, scenario: None }
 }
 
-/// add content files present on disk (and hashing to their address) to the model
-fn sync_content_from_disk(it: &mut Interp) {
+/// add content files present on disk (and hashing to their address) to the model; content that vanished is
+/// accepted only when the interrupted call was itself a deletion
+fn sync_content_from_disk(it: &mut Interp, deletion: bool) {
     let d = disk::scan(&it.cache);
     for cf in &d.content {
         if cf.kind == disk::FileKind::Regular && cf.well_placed && cf.digest_ok {
@@ -484,7 +485,7 @@ fn sync_content_from_disk(it: &mut Interp) {
     }
     let rels: Vec<String> = it.m.content.keys().cloned().collect();
     for rel in rels {
-        if !d.content.iter().any(|c| c.rel == rel) {
+        if deletion && !d.content.iter().any(|c| c.rel == rel) {
             if let Some(c) = it.m.content.get_mut(&rel) {
                 if c.state == CState::Pristine {
                     c.state = CState::Missing;
@@ -521,7 +522,8 @@ fn would_be(it: &mut Interp, st: &Value, pre: &Pre) -> (Option<String>, Option<O
 fn settle_victim(it: &mut Interp, st: &Value, pre: &Pre, sub: &mut Sub, how: &str) {
     let opname = st["op"].as_str().unwrap_or("?").to_string();
     let (key, newv) = would_be(it, st, pre);
-    sync_content_from_disk(it);
+    let deletion = matches!(opname.as_str(), "remove_hash" | "clear") || (opname == "remove_opts" && st["fully"].as_bool() == Some(true));
+    sync_content_from_disk(it, deletion);
     if let (Some(k), Some(newv)) = (key, newv) {
         let old = it.m.keys.get(&k).cloned();
         let d = disk::scan(&it.cache);
@@ -1163,7 +1165,7 @@ fn gen_c13(rng: &mut Rng, r: u64) -> Value {
     let vals = vec![json!({"seed": rng.next_u64() >> 1, "len": len0}), json!({"seed": rng.next_u64() >> 1, "len": 50}), json!({"seed": rng.next_u64() >> 1, "len": 7})];
     let f = client_flavs()[(r % 5) as usize];
     let mut prelude = Vec::new();
-    prelude.push(json!({"k":"api","op":"write","entry":"write","key":1,"val":1,"bin":"sync","mode":"sync"}));
+    prelude.push(json!({"k":"api","op":"write","entry":"write","key":1,"val": if rng.chance(1, 3) { 0 } else { 1 },"bin":"sync","mode":"sync"}));
     let present = rng.chance(3, 4);
     if present {
         prelude.push(json!({"k":"api","op":"write","entry":"write","key":0,"val":0,"bin":"sync","mode":"sync"}));
